@@ -122,6 +122,164 @@ pub fn exec_proj<S: Sc + BaseFloat>(op: &str, fm: &str, a: &[Val<S>]) -> Option<
                      I(ceil_i((dv[0].abs() + dv[1].abs()) / (dn * eps))), I(if dv[2] > 0.0 { 1 } else { -1 }),
                      I(ceil_i(uv[0].abs() / (un * eps))), I(if uv[1] >= -eps * un { 1 } else { -1 }), I(eye_dev)])
         }
+        // C05 / C06 at small angles: a rotation by d = 1e-3 .. 1e-8 rad about the exact unit axis n is built natively in the
+        // given representation, taken along a route (applied directly, inverted, composed with itself, converted to another
+        // representation first), and applied to the exact unit vector v perpendicular to n.  The recorder measures the distance
+        // from cos(kd) v + sin(kd) (n x v), k = 1 (0 for the inverse round trip, 2 for the square), in millionths of d.
+        ("small_rot_proj", [T(ty), T(route), V3(n), V3(v), I(dc)]) => {
+            let table: &[f64] = &[1.0e-3, 1.0e-5, 1.0e-7, 1.0e-8];
+            let d = table[(*dc as usize) % table.len()];
+            let th: Rad<S> = Rad(NumCast::from(d).unwrap());
+            let on_axis = |w: &Vector3<S>| -> Option<usize> { [Vector3::unit_x(), Vector3::unit_y(), Vector3::unit_z()].iter().position(|e| e == w) };
+            let fa = route == "from_angle";
+            // the rotation as a quaternion, a 3x3 matrix, a basis or a 4x4 matrix
+            enum R<S: BaseFloat> { Q(Quaternion<S>), M3(Matrix3<S>), B3(Basis3<S>), M4(Matrix4<S>) }
+            let r: R<S> = match (ty.as_str(), fa) {
+                ("Quaternion", false) => R::Q(Rotation3::from_axis_angle(*n, th)),
+                ("Matrix3", false) => R::M3(Matrix3::from_axis_angle(*n, th)),
+                ("Basis3", false) => R::B3(Rotation3::from_axis_angle(*n, th)),
+                ("Matrix4", false) => R::M4(Matrix4::from_axis_angle(*n, th)),
+                (_, true) => { let ax = on_axis(n)?; match (ty.as_str(), ax) {
+                    ("Quaternion", 0) => R::Q(Rotation3::from_angle_x(th)), ("Quaternion", 1) => R::Q(Rotation3::from_angle_y(th)), ("Quaternion", _) => R::Q(Rotation3::from_angle_z(th)),
+                    ("Matrix3", 0) => R::M3(Matrix3::from_angle_x(th)), ("Matrix3", 1) => R::M3(Matrix3::from_angle_y(th)), ("Matrix3", _) => R::M3(Matrix3::from_angle_z(th)),
+                    ("Basis3", 0) => R::B3(Rotation3::from_angle_x(th)), ("Basis3", 1) => R::B3(Rotation3::from_angle_y(th)), ("Basis3", _) => R::B3(Rotation3::from_angle_z(th)),
+                    ("Matrix4", 0) => R::M4(Matrix4::from_angle_x(th)), ("Matrix4", 1) => R::M4(Matrix4::from_angle_y(th)), ("Matrix4", _) => R::M4(Matrix4::from_angle_z(th)),
+                    _ => return None } }
+                _ => return None,
+            };
+            let up3 = |m: &Matrix4<S>| Matrix3::from_cols(m.x.truncate(), m.y.truncate(), m.z.truncate());
+            let apply = |r: &R<S>, w: Vector3<S>| -> Vector3<S> { match r { R::Q(q) => *q * w, R::M3(m) => *m * w, R::B3(b) => b.rotate_vector(w), R::M4(m) => (*m * w.extend(S::zero())).truncate() } };
+            let (k, out): (f64, Vector3<S>) = match route.as_str() {
+                "direct" | "from_angle" => (1.0, apply(&r, *v)),
+                "rotate_vector" => (1.0, match &r { R::Q(q) => q.rotate_vector(*v), R::B3(b) => b.rotate_vector(*v), _ => return None }),
+                "invert" => { let w = apply(&r, *v);
+                    (0.0, match &r { R::Q(q) => Rotation::invert(q).rotate_vector(w), R::B3(b) => Rotation::invert(b).rotate_vector(w),
+                                     R::M3(m) => SquareMatrix::invert(m)? * w, R::M4(m) => (SquareMatrix::invert(m)? * w.extend(S::zero())).truncate() }) }
+                "compose" => (2.0, match &r { R::Q(q) => (*q * *q) * *v, R::M3(m) => (*m * *m) * *v, R::B3(b) => (*b * *b).rotate_vector(*v), R::M4(m) => ((*m * *m) * v.extend(S::zero())).truncate() }),
+                "via_quat" => (1.0, match &r { R::M3(m) => Quaternion::from(*m) * *v, R::B3(b) => Quaternion::from(*b) * *v, R::M4(m) => Quaternion::from(up3(m)) * *v, _ => return None }),
+                "via_mat3" => (1.0, match &r { R::Q(q) => Matrix3::from(*q) * *v, R::B3(b) => Matrix3::from(*b) * *v, _ => return None }),
+                "via_basis3" => (1.0, match &r { R::Q(q) => Basis3::from(*q).rotate_vector(*v), R::M3(m) => Basis3::from_quaternion(&Quaternion::from(*m)).rotate_vector(*v), _ => return None }),
+                "via_mat4" => (1.0, match &r { R::Q(q) => (Matrix4::from(*q) * v.extend(S::zero())).truncate(), R::M3(m) => (Matrix4::from(*m) * v.extend(S::zero())).truncate(), _ => return None }),
+                _ => return None,
+            };
+            let (nv, vv) = ([f(n.x), f(n.y), f(n.z)], [f(v.x), f(v.y), f(v.z)]);
+            let m = [nv[1] * vv[2] - nv[2] * vv[1], nv[2] * vv[0] - nv[0] * vv[2], nv[0] * vv[1] - nv[1] * vv[0]];
+            let (c, sn) = ((k * d).cos(), (k * d).sin());
+            let o = [f(out.x), f(out.y), f(out.z)];
+            let err = (0..3).map(|i| (o[i] - (c * vv[i] + sn * m[i])).powi(2)).sum::<f64>().sqrt();
+            let len = (o[0] * o[0] + o[1] * o[1] + o[2] * o[2]).sqrt();
+            Tup(vec![I(ceil_i(err / d * 1.0e6)), I(ceil_i((len - 1.0).abs() / eps))])
+        }
+        // the same in two dimensions: Basis2 / Matrix2 from a small angle
+        ("small_rot_proj", [T(ty), T(route), V2(v), I(dc)]) => {
+            let table: &[f64] = &[1.0e-3, 1.0e-5, 1.0e-7, 1.0e-8];
+            let d = table[(*dc as usize) % table.len()];
+            let th: Rad<S> = Rad(NumCast::from(d).unwrap());
+            let (k, out): (f64, Vector2<S>) = match (ty.as_str(), route.as_str()) {
+                ("Basis2", "direct") => (1.0, <Basis2<S> as Rotation2>::from_angle(th).rotate_vector(*v)),
+                ("Basis2", "invert") => { let r = <Basis2<S> as Rotation2>::from_angle(th); (0.0, Rotation::invert(&r).rotate_vector(r.rotate_vector(*v))) }
+                ("Basis2", "compose") => { let r = <Basis2<S> as Rotation2>::from_angle(th); (2.0, (r * r).rotate_vector(*v)) }
+                ("Matrix2", "direct") => (1.0, Matrix2::from_angle(th) * *v),
+                ("Matrix2", "invert") => { let r = Matrix2::from_angle(th); (0.0, SquareMatrix::invert(&r)? * (r * *v)) }
+                ("Matrix2", "compose") => { let r = Matrix2::from_angle(th); (2.0, (r * r) * *v) }
+                _ => return None,
+            };
+            let vv = [f(v.x), f(v.y)];
+            let (c, sn) = ((k * d).cos(), (k * d).sin());
+            let e = [c * vv[0] - sn * vv[1], sn * vv[0] + c * vv[1]];
+            let err = ((f(out.x) - e[0]).powi(2) + (f(out.y) - e[1]).powi(2)).sqrt();
+            let len = (f(out.x).powi(2) + f(out.y).powi(2)).sqrt();
+            Tup(vec![I(ceil_i(err / d * 1.0e6)), I(ceil_i((len - 1.0).abs() / eps))])
+        }
+        // C11 close to unit length: x is an exact unit vector / quaternion; v = x (1 + g) is built natively for a table of small
+        // g of either sign.  normalize(v) must again be x: <<| |r| - 1 | in eps, |r - x| in eps, the same for normalize_to(v, 3) / 3>>
+        ("norm_proj", [x, I(gc), B(neg)]) => {
+            let table: &[f64] = &[1.0e-2, 1.0e-3, 3.0e-4, 1.0e-5, 1.0e-7, 1.0e-9];
+            let g = table[(*gc as usize) % table.len()] * if *neg { -1.0 } else { 1.0 };
+            let k: S = NumCast::from(1.0 + g).unwrap();
+            let three: S = NumCast::from(3.0f64).unwrap();
+            let (c0, c1, c2): (Vec<f64>, Vec<f64>, Vec<f64>) = match x {
+                V2(u) => { let w = *u * k; let (r, t) = (w.normalize(), w.normalize_to(three) / three); (vec![f(u.x), f(u.y)], vec![f(r.x), f(r.y)], vec![f(t.x), f(t.y)]) }
+                V3(u) => { let w = *u * k; let (r, t) = (w.normalize(), w.normalize_to(three) / three); (vec![f(u.x), f(u.y), f(u.z)], vec![f(r.x), f(r.y), f(r.z)], vec![f(t.x), f(t.y), f(t.z)]) }
+                V4(u) => { let w = *u * k; let (r, t) = (w.normalize(), w.normalize_to(three) / three);
+                           (vec![f(u.x), f(u.y), f(u.z), f(u.w)], vec![f(r.x), f(r.y), f(r.z), f(r.w)], vec![f(t.x), f(t.y), f(t.z), f(t.w)]) }
+                Q(u) => { let w = *u * k; let (r, t) = (w.normalize(), w.normalize_to(three) / three); (qv(u).to_vec(), qv(&r).to_vec(), qv(&t).to_vec()) }
+                _ => return None,
+            };
+            let len = |c: &Vec<f64>| c.iter().map(|x| x * x).sum::<f64>().sqrt();
+            let dist = |a: &Vec<f64>, b: &Vec<f64>| a.iter().zip(b.iter()).map(|(x, y)| (x - y).powi(2)).sum::<f64>().sqrt();
+            Tup(vec![I(ceil_i((len(&c1) - 1.0).abs() / eps)), I(ceil_i(dist(&c1, &c0) / eps)), I(ceil_i((len(&c2) - 1.0).abs() / eps)), I(ceil_i(dist(&c2, &c0) / eps))])
+        }
+        // C13 far from the first turn: sin, cos, tan of Rad(x) for x up to millions of radians against the functions of the
+        // radian measure, reduced in the recorder with a three-part 2 pi (fused multiply-add, error < 1e-15 rad).
+        // <<|sin - ref|, |cos - ref|, |tan - ref| / (1 + ref^2), and the two parts of sin_cos>> in eps
+        ("trig_big_proj", [N(x)]) => {
+            let xf = f(*x);
+            let (hi, lo, lo2) = (6.283185307179586f64, 2.4492935982947064e-16f64, -5.989539619436679e-33f64);
+            let kk = (xf / hi).round();
+            let red = (-kk).mul_add(hi, xf) - kk * lo - kk * lo2;
+            let a = Rad(*x);
+            let (sn, cs, tn) = (f(a.sin()), f(a.cos()), f(a.tan()));
+            let (s2, c2) = a.sin_cos();
+            let rt = red.tan();
+            Tup(vec![I(ceil_i((sn - red.sin()).abs() / eps)), I(ceil_i((cs - red.cos()).abs() / eps)), I(ceil_i((tn - rt).abs() / (eps * (1.0 + rt * rt)))),
+                     I(ceil_i((f(s2) - red.sin()).abs() / eps)), I(ceil_i((f(c2) - red.cos()).abs() / eps))])
+        }
+        // C08 with a small but not negligible scale (|s| > 1e-6) or a tiny non-zero determinant: the similarity
+        // x -> s R x + d as a Matrix4 / Matrix3 / Matrix2 / Decomposed must still have an inverse that undoes it.
+        // <<inverse exists ?, | inv(T(v)) - v | / |v| in eps, | inv(T(p)) - p | / (1 + |p|) in eps>>
+        ("tiny_inv_proj", [T(kind), N(sc), Q(q), V3(d), V3(v)]) => {
+            let rot3 = Matrix3::from(*q);
+            let pt = Point3::from_vec(*v);
+            let zero3 = Vector3::new(S::zero(), S::zero(), S::zero());
+            let (some, bv, bp): (bool, Vector3<S>, Point3<S>) = match kind.as_str() {
+                "Matrix4" => { let m = Matrix4::from_translation(*d) * Matrix4::from(rot3) * Matrix4::from_scale(*sc);
+                    match Transform::<Point3<S>>::inverse_transform(&m) { Some(i) => (true, i.transform_vector(m.transform_vector(*v)), i.transform_point(m.transform_point(pt))), None => (false, zero3, pt) } }
+                "Matrix4_invert" => { let m = Matrix4::from_translation(*d) * Matrix4::from(rot3) * Matrix4::from_scale(*sc);
+                    match SquareMatrix::invert(&m) { Some(i) => (true, (i * (m * v.extend(S::zero()))).truncate(), Point3::from_homogeneous(i * (m * pt.to_homogeneous()))), None => (false, zero3, pt) } }
+                "Matrix3" => { let m = rot3 * *sc;
+                    type T3<S> = Matrix3<S>;
+                    match <T3<S> as Transform<Point3<S>>>::inverse_transform(&m) {
+                        Some(i) => (true, <T3<S> as Transform<Point3<S>>>::transform_vector(&i, <T3<S> as Transform<Point3<S>>>::transform_vector(&m, *v)),
+                                    <T3<S> as Transform<Point3<S>>>::transform_point(&i, <T3<S> as Transform<Point3<S>>>::transform_point(&m, pt))),
+                        None => (false, zero3, pt) } }
+                "Matrix3_invert" => { let m = rot3 * *sc;
+                    match SquareMatrix::invert(&m) { Some(i) => (true, i * (m * *v), Point3::from_vec(i * (m * *v))), None => (false, zero3, pt) } }
+                "DecQ" => { let t = Decomposed { scale: *sc, rot: *q, disp: *d };
+                    match t.inverse_transform() { Some(i) => (true, i.transform_vector(t.transform_vector(*v)), i.transform_point(t.transform_point(pt))), None => (false, zero3, pt) } }
+                "Dec3" => { let t = Decomposed { scale: *sc, rot: Basis3::from(*q), disp: *d };
+                    match t.inverse_transform() { Some(i) => (true, i.transform_vector(t.transform_vector(*v)), i.transform_point(t.transform_point(pt))), None => (false, zero3, pt) } }
+                "DecQ_vector" => { let t = Decomposed { scale: *sc, rot: *q, disp: *d };
+                    match t.inverse_transform_vector(t.transform_vector(*v)) { Some(w) => (true, w, pt), None => (false, zero3, pt) } }
+                _ => return None,
+            };
+            let vl = (f(v.x).powi(2) + f(v.y).powi(2) + f(v.z).powi(2)).sqrt().max(1.0e-300);
+            let ev = ((f(bv.x) - f(v.x)).powi(2) + (f(bv.y) - f(v.y)).powi(2) + (f(bv.z) - f(v.z)).powi(2)).sqrt() / vl;
+            // the displacement is cancelled at its own magnitude and then divided by the scale
+            let dl = (f(d.x).powi(2) + f(d.y).powi(2) + f(d.z).powi(2)).sqrt();
+            let ep = ((f(bp.x) - f(v.x)).powi(2) + (f(bp.y) - f(v.y)).powi(2) + (f(bp.z) - f(v.z)).powi(2)).sqrt() / (vl + dl / f(*sc).abs());
+            Tup(vec![B(some), I(ceil_i(ev / eps)), I(ceil_i(ep / eps))])
+        }
+        // C10 with near and far a hair apart: far = near (1 + g), g = 1e-3 .. 1e-9.  The constructor must not reject the
+        // parameters (near != far) and still sends the near plane to -1 and the far plane to +1; the cancellation costs
+        // a factor 1/g, so the deviations are measured in units of eps / g.  <<built ?, near plane, far plane>>
+        ("slab_proj", [T(ctor), N(n), I(gc)]) => {
+            let table: &[f64] = &[1.0e-3, 1.0e-5, 1.0e-7, 1.0e-9];
+            let g = table[(*gc as usize) % table.len()];
+            let fa: S = *n * NumCast::from(1.0 + g).unwrap();
+            let c = |x: f64| -> S { NumCast::from(x).unwrap() };
+            let m: Matrix4<S> = match ctor.as_str() {
+                "perspective" => cgmath::perspective(Deg(c(60.0)), c(1.5), *n, fa),
+                "perspective_fov" => PerspectiveFov { fovy: Rad(c(1.0)), aspect: c(0.75), near: *n, far: fa }.into(),
+                "frustum" => cgmath::frustum(c(-1.0), c(2.0), c(-1.0), c(1.5), *n, fa),
+                "perspective_struct" => Perspective { left: c(-1.0), right: c(2.0), bottom: c(-1.0), top: c(1.5), near: *n, far: fa }.into(),
+                "ortho" => cgmath::ortho(c(-1.0), c(2.0), c(-1.0), c(1.5), *n, fa),
+                "planar" => cgmath::planar(Deg(c(60.0)), c(1.5), c(2.0), *n, fa),
+                _ => return None,
+            };
+            let z = |depth: S| -> f64 { let h = m * Vector4::new(S::zero(), S::zero(), -depth, S::one()); f(h.z) / f(h.w) };
+            Tup(vec![B(true), I(ceil_i((z(*n) + 1.0).abs() * g / eps)), I(ceil_i((z(fa) - 1.0).abs() * g / eps))])
+        }
         // C15 close to (anti)parallel.  a is a unit vector, n a unit vector perpendicular to it (both exact rationals);
         // b = +-cos(d) a + sin(d) (n x a) is built natively, at angle d (or pi - d) from a, for d from a table well above the
         // tolerated 1e-7 rad (1e-4 rad for from_arc).  The recorder measures |r(a) - b| in millionths of d, the deviation of
